@@ -2545,3 +2545,1541 @@ mod c08 {
         check_remove_pase::<4>(n);
     }
 }
+
+mod c15 {
+    use super::*;
+
+    use core::net::{IpAddr, Ipv4Addr, SocketAddr};
+
+    use crate::crypto::backend::dummy::DummyCrypto;
+    use crate::transport::exchange::{InitiatorState, ResponderState};
+    use crate::transport::mrp::AckEntry;
+    use crate::transport::network::BtAddr;
+    use crate::transport::plain_hdr::SecFlags;
+
+    // ------------------------------------------------------------------------------------------------
+    // Nondeterministic environment
+    // ------------------------------------------------------------------------------------------------
+
+    /// The value `Instant::now()` returns in harnesses that stub the clock. The harness sets it to an
+    /// arbitrary value, so time is a universally quantified input that the harness can refer to.
+    pub(super) static mut NOW_TICKS: u64 = 0;
+
+    pub(super) fn set_now(ticks: u64) {
+        unsafe {
+            NOW_TICKS = ticks;
+        }
+    }
+
+    pub(super) fn fake_now() -> Instant {
+        Instant::from_ticks(unsafe { NOW_TICKS })
+    }
+
+    /// An RNG whose every draw is arbitrary.
+    #[derive(Copy, Clone)]
+    pub(super) struct NondetRng;
+
+    impl RngCore for NondetRng {
+        fn next_u32(&mut self) -> u32 {
+            kani::any()
+        }
+
+        fn next_u64(&mut self) -> u64 {
+            kani::any()
+        }
+
+        fn fill_bytes(&mut self, dest: &mut [u8]) {
+            for b in dest.iter_mut() {
+                *b = kani::any();
+            }
+        }
+
+        fn try_fill_bytes(&mut self, dest: &mut [u8]) -> Result<(), rand_core::Error> {
+            self.fill_bytes(dest);
+            Ok(())
+        }
+    }
+
+    impl rand_core::CryptoRng for NondetRng {}
+
+    /// A `Crypto` that can only hand out random numbers (arbitrary ones), or fail to (when `fail`).
+    /// Every other primitive panics (`DummyCrypto` shape), so a function under contract that touched
+    /// any other primitive would fail its harness.
+    #[derive(Copy, Clone)]
+    pub(super) struct RandOnlyCrypto {
+        pub(super) fail: bool,
+    }
+
+    impl RandOnlyCrypto {
+        fn rng(&self) -> Result<NondetRng, Error> {
+            if self.fail {
+                Err(ErrorCode::Invalid.into())
+            } else {
+                Ok(NondetRng)
+            }
+        }
+    }
+
+    impl Crypto for RandOnlyCrypto {
+        type Rand<'a>
+            = NondetRng
+        where
+            Self: 'a;
+        type WeakRand<'a>
+            = NondetRng
+        where
+            Self: 'a;
+        type Hash<'a>
+            = DummyCrypto
+        where
+            Self: 'a;
+        type Hash1<'a>
+            = DummyCrypto
+        where
+            Self: 'a;
+        type Hmac<'a>
+            = DummyCrypto
+        where
+            Self: 'a;
+        type Kdf<'a>
+            = DummyCrypto
+        where
+            Self: 'a;
+        type PbKdf<'a>
+            = DummyCrypto
+        where
+            Self: 'a;
+        type Aead<'a>
+            = DummyCrypto
+        where
+            Self: 'a;
+        type PublicKey<'a>
+            = DummyCrypto
+        where
+            Self: 'a;
+        type SecretKey<'a>
+            = DummyCrypto
+        where
+            Self: 'a;
+        type SigningSecretKey<'a>
+            = DummyCrypto
+        where
+            Self: 'a;
+        type EcScalar<'a>
+            = DummyCrypto
+        where
+            Self: 'a;
+        type EcPoint<'a>
+            = DummyCrypto
+        where
+            Self: 'a;
+
+        fn rand(&self) -> Result<Self::Rand<'_>, Error> {
+            self.rng()
+        }
+
+        fn weak_rand(&self) -> Result<Self::WeakRand<'_>, Error> {
+            self.rng()
+        }
+
+        fn hash(&self) -> Result<Self::Hash<'_>, Error> {
+            unimplemented!()
+        }
+
+        fn hash1(&self) -> Result<Self::Hash1<'_>, Error> {
+            unimplemented!()
+        }
+
+        fn hmac<const KEY_LEN: usize>(
+            &self,
+            _key: crate::crypto::CryptoSensitiveRef<'_, KEY_LEN>,
+        ) -> Result<Self::Hmac<'_>, Error> {
+            unimplemented!()
+        }
+
+        fn kdf(&self) -> Result<Self::Kdf<'_>, Error> {
+            unimplemented!()
+        }
+
+        fn pbkdf(&self) -> Result<Self::PbKdf<'_>, Error> {
+            unimplemented!()
+        }
+
+        fn aead(&self) -> Result<Self::Aead<'_>, Error> {
+            unimplemented!()
+        }
+
+        fn pub_key(
+            &self,
+            _key: crate::crypto::CanonPkcPublicKeyRef<'_>,
+        ) -> Result<Self::PublicKey<'_>, Error> {
+            unimplemented!()
+        }
+
+        fn generate_secret_key(&self) -> Result<Self::SecretKey<'_>, Error> {
+            unimplemented!()
+        }
+
+        fn secret_key(
+            &self,
+            _key: crate::crypto::CanonPkcSecretKeyRef<'_>,
+        ) -> Result<Self::SecretKey<'_>, Error> {
+            unimplemented!()
+        }
+
+        fn singleton_singing_secret_key(&self) -> Result<Self::SigningSecretKey<'_>, Error> {
+            unimplemented!()
+        }
+
+        fn ec_scalar(
+            &self,
+            _scalar: crate::crypto::CanonEcScalarRef<'_>,
+        ) -> Result<Self::EcScalar<'_>, Error> {
+            unimplemented!()
+        }
+
+        fn ec_scalar_mod_p(
+            &self,
+            _uint: crate::crypto::CanonUint320Ref<'_>,
+        ) -> Result<Self::EcScalar<'_>, Error> {
+            unimplemented!()
+        }
+
+        fn generate_ec_scalar(&self) -> Result<Self::EcScalar<'_>, Error> {
+            unimplemented!()
+        }
+
+        fn ec_point(
+            &self,
+            _point: crate::crypto::CanonEcPointRef<'_>,
+        ) -> Result<Self::EcPoint<'_>, Error> {
+            unimplemented!()
+        }
+
+        fn ec_generator_point(&self) -> Result<Self::EcPoint<'_>, Error> {
+            unimplemented!()
+        }
+    }
+
+    // ------------------------------------------------------------------------------------------------
+    // Arbitrary states, built from fields
+    // ------------------------------------------------------------------------------------------------
+
+    pub(super) fn any_role() -> Role {
+        let k: u8 = kani::any();
+        kani::assume(k < 5);
+        match k {
+            0 => Role::Initiator(InitiatorState::Owned),
+            1 => Role::Initiator(InitiatorState::Dropped),
+            2 => Role::Responder(ResponderState::AcceptPending),
+            3 => Role::Responder(ResponderState::Owned),
+            _ => Role::Responder(ResponderState::Dropped),
+        }
+    }
+
+    pub(super) fn role_code(role: &Role) -> u8 {
+        match role {
+            Role::Initiator(InitiatorState::Owned) => 0,
+            Role::Initiator(InitiatorState::Dropped) => 1,
+            Role::Responder(ResponderState::AcceptPending) => 2,
+            Role::Responder(ResponderState::Owned) => 3,
+            Role::Responder(ResponderState::Dropped) => 4,
+        }
+    }
+
+    pub(super) fn any_addr() -> Address {
+        let k: u8 = kani::any();
+        kani::assume(k < 3);
+        let sa = SocketAddr::new(
+            IpAddr::V4(Ipv4Addr::from(kani::any::<u32>())),
+            kani::any(),
+        );
+        match k {
+            0 => Address::Udp(sa),
+            1 => Address::Tcp(sa),
+            _ => Address::Btp(BtAddr(kani::any())),
+        }
+    }
+
+    pub(super) fn any_mode() -> SessionMode {
+        let k: u8 = kani::any();
+        kani::assume(k < 4);
+        match k {
+            0 => SessionMode::Case {
+                fab_idx: kani::any(),
+                cat_ids: kani::any(),
+            },
+            1 => SessionMode::Pase {
+                fab_idx: kani::any(),
+            },
+            2 => SessionMode::Group {
+                fab_idx: kani::any(),
+                group_id: kani::any(),
+            },
+            _ => SessionMode::PlainText,
+        }
+    }
+
+    /// An arbitrary pending retransmission. The fields of `RetransEntry` are private to `mrp.rs`, so
+    /// the entry is produced by its constructor; with `full` the transmission count (0..=5) is made
+    /// arbitrary by replaying that many transmissions of the same counter.
+    pub(super) fn any_retrans(full: bool) -> Option<RetransEntry> {
+        if kani::any() {
+            let ctr: u32 = kani::any();
+            let mut e = RetransEntry::new(kani::any(), ctr);
+            if full {
+                let sent: u8 = kani::any();
+                for i in 0..6u8 {
+                    if i < sent {
+                        let _ = e.pre_send(ctr);
+                    }
+                }
+            }
+            Some(e)
+        } else {
+            None
+        }
+    }
+
+    pub(super) fn any_exch_slot(full: bool) -> Option<ExchangeState> {
+        if kani::any() {
+            Some(ExchangeState {
+                exch_id: kani::any(),
+                role: any_role(),
+                mrp: ReliableMessage {
+                    retrans: any_retrans(full),
+                    ack: if kani::any() {
+                        Some(AckEntry {
+                            msg_ctr: kani::any(),
+                            acknowledged: kani::any(),
+                        })
+                    } else {
+                        None
+                    },
+                    received_at: if kani::any() {
+                        Some(Instant::from_ticks(kani::any()))
+                    } else {
+                        None
+                    },
+                },
+                #[cfg(feature = "groups")]
+                group_data_ctr: kani::any(),
+            })
+        } else {
+            None
+        }
+    }
+
+    /// An arbitrary session: every scalar, every `Option` discriminant and the exchange-table length
+    /// (0..=MAX_EXCHANGES) are arbitrary. Key material is zero (no function under contract reads it).
+    pub(super) fn any_session(full: bool) -> Session {
+        // All slots are written at concrete indices; the (arbitrary) length is set afterwards, so that
+        // no write of the builder goes to a symbolic index. Slots beyond the length are never read.
+        let mut exchanges: Vec<Option<ExchangeState>, MAX_EXCHANGES> = Vec::new();
+        for _ in 0..MAX_EXCHANGES {
+            let _ = exchanges.push(any_exch_slot(full));
+        }
+        let n: usize = kani::any();
+        kani::assume(n <= MAX_EXCHANGES);
+        unsafe {
+            exchanges.set_len(n);
+        }
+
+        Session {
+            id: kani::any(),
+            peer_addr: any_addr(),
+            local_nodeid: kani::any(),
+            peer_nodeid: kani::any(),
+            dec_key: CanonAeadKey::new(),
+            enc_key: CanonAeadKey::new(),
+            shared_secret: CanonPkcSharedSecret::new(),
+            att_challenge: AttChallenge::new(),
+            local_sess_id: kani::any(),
+            peer_sess_id: kani::any(),
+            msg_ctr: kani::any(),
+            rx_ctr_state: RxCtrState::new(kani::any()),
+            mode: any_mode(),
+            exchanges,
+            last_use: Instant::from_ticks(kani::any()),
+            peer_active_interval_ms: kani::any(),
+            peer_idle_interval_ms: kani::any(),
+            peer_active_threshold_ms: kani::any(),
+            expired: kani::any(),
+            reserved: kani::any(),
+        }
+    }
+
+    /// A concrete, blank session (what `fill_sessions` pushes before making every field arbitrary).
+    pub(super) fn blank_session() -> Session {
+        Session {
+            id: 0,
+            peer_addr: Address::new(),
+            local_nodeid: 0,
+            peer_nodeid: None,
+            dec_key: CanonAeadKey::new(),
+            enc_key: CanonAeadKey::new(),
+            shared_secret: CanonPkcSharedSecret::new(),
+            att_challenge: AttChallenge::new(),
+            local_sess_id: 0,
+            peer_sess_id: 0,
+            msg_ctr: 0,
+            rx_ctr_state: RxCtrState::new(0),
+            mode: SessionMode::PlainText,
+            exchanges: Vec::new(),
+            last_use: Instant::from_ticks(0),
+            peer_active_interval_ms: 0,
+            peer_idle_interval_ms: 0,
+            peer_active_threshold_ms: 0,
+            expired: false,
+            reserved: false,
+        }
+    }
+
+    /// Turns the empty table `t` into an arbitrary table with EXACTLY `n` sessions, built in place:
+    /// a blank session is pushed and then every field is made arbitrary through `&mut` (moving
+    /// arbitrary `Session` values into the `MaybeUninit` buffer is ~3x dearer for CBMC, and a symbolic
+    /// table length exhausts 12 GB even for a bare `get_session_for_eviction` call - both measured).
+    /// Every session has all MAX_EXCHANGES exchange slots, each arbitrarily free or live. The three
+    /// allocators and the group counters are arbitrary. Key material is zero.
+    pub(super) fn fill_sessions(t: &mut Sessions, n: usize) {
+        for k in 0..n {
+            let _ = t.sessions.push(blank_session());
+            let s = &mut t.sessions[k];
+            s.id = kani::any();
+            s.peer_addr = any_addr();
+            s.local_nodeid = kani::any();
+            s.peer_nodeid = kani::any();
+            s.local_sess_id = kani::any();
+            s.peer_sess_id = kani::any();
+            s.msg_ctr = kani::any();
+            s.rx_ctr_state = RxCtrState::new(kani::any());
+            s.mode = any_mode();
+            s.last_use = Instant::from_ticks(kani::any());
+            s.peer_active_interval_ms = kani::any();
+            s.peer_idle_interval_ms = kani::any();
+            s.peer_active_threshold_ms = kani::any();
+            s.expired = kani::any();
+            s.reserved = kani::any();
+            for _ in 0..MAX_EXCHANGES {
+                let _ = s.exchanges.push(any_exch_slot(false));
+            }
+        }
+        t.next_sess_unique_id = kani::any();
+        t.next_sess_id = kani::any();
+        t.next_exch_id = kani::any();
+        #[cfg(feature = "groups")]
+        {
+            t.global_group_data_ctr = kani::any();
+            t.group_data_ctr_boundary = kani::any();
+        }
+    }
+
+    // ------------------------------------------------------------------------------------------------
+    // Observations ("signatures") of a state, used to state frames
+    // ------------------------------------------------------------------------------------------------
+
+    #[derive(Copy, Clone, PartialEq, Eq)]
+    pub(super) struct ExchSig {
+        pub(super) live: bool,
+        pub(super) exch_id: u16,
+        pub(super) role: u8,
+        /// counter remembered for retransmission
+        pub(super) retrans: Option<u32>,
+        /// (counter to acknowledge, already acknowledged once)
+        pub(super) ack: Option<(u32, bool)>,
+        pub(super) received_at: Option<u64>,
+        pub(super) group_data_ctr: Option<u32>,
+    }
+
+    impl ExchSig {
+        pub(super) const EMPTY: Self = Self {
+            live: false,
+            exch_id: 0,
+            role: 0,
+            retrans: None,
+            ack: None,
+            received_at: None,
+            group_data_ctr: None,
+        };
+    }
+
+    pub(super) fn exch_sig(slot: &Option<ExchangeState>) -> ExchSig {
+        match slot {
+            None => ExchSig::EMPTY,
+            Some(e) => ExchSig {
+                live: true,
+                exch_id: e.exch_id,
+                role: role_code(&e.role),
+                retrans: e.mrp.retrans.as_ref().map(RetransEntry::get_msg_ctr),
+                ack: e.mrp.ack.as_ref().map(|a| (a.msg_ctr, a.acknowledged)),
+                received_at: e.mrp.received_at.map(|t| t.as_ticks()),
+                #[cfg(feature = "groups")]
+                group_data_ctr: e.group_data_ctr,
+                #[cfg(not(feature = "groups"))]
+                group_data_ctr: None,
+            },
+        }
+    }
+
+    #[derive(Copy, Clone, PartialEq, Eq)]
+    pub(super) struct SessSig {
+        pub(super) id: u32,
+        /// (transport, IPv4 bits, port, BT address) - scalars, so that equality needs no `memcmp`
+        pub(super) peer_addr: (u8, u32, u16, u64),
+        pub(super) local_nodeid: u64,
+        pub(super) peer_nodeid: Option<u64>,
+        pub(super) local_sess_id: u16,
+        pub(super) peer_sess_id: u16,
+        pub(super) msg_ctr: u32,
+        /// (variant, fabric index, group id, CAT ids)
+        pub(super) mode: (u8, u8, u16, u32, u32, u32),
+        pub(super) last_use: u64,
+        pub(super) intervals: (u32, u32, u16),
+        pub(super) expired: bool,
+        pub(super) reserved: bool,
+        pub(super) exch_len: usize,
+        pub(super) exch: [ExchSig; MAX_EXCHANGES],
+    }
+
+    impl SessSig {
+        pub(super) const EMPTY: Self = Self {
+            id: 0,
+            peer_addr: (0, 0, 0, 0),
+            local_nodeid: 0,
+            peer_nodeid: None,
+            local_sess_id: 0,
+            peer_sess_id: 0,
+            msg_ctr: 0,
+            mode: (0, 0, 0, 0, 0, 0),
+            last_use: 0,
+            intervals: (0, 0, 0),
+            expired: false,
+            reserved: false,
+            exch_len: 0,
+            exch: [ExchSig::EMPTY; MAX_EXCHANGES],
+        };
+
+        /// Does the session carry a live exchange?
+        pub(super) fn has_exchange(&self) -> bool {
+            let mut any = false;
+            for k in 0..MAX_EXCHANGES {
+                any |= self.exch[k].live;
+            }
+            any
+        }
+
+        /// Equal in everything except (optionally) the listed parts.
+        pub(super) fn same_except(
+            &self,
+            o: &SessSig,
+            skip_exch: Option<usize>,
+            skip_msg_ctr: bool,
+            skip_expired: bool,
+        ) -> bool {
+            let mut eq = self.id == o.id
+                && self.peer_addr == o.peer_addr
+                && self.local_nodeid == o.local_nodeid
+                && self.peer_nodeid == o.peer_nodeid
+                && self.local_sess_id == o.local_sess_id
+                && self.peer_sess_id == o.peer_sess_id
+                && (skip_msg_ctr || self.msg_ctr == o.msg_ctr)
+                && self.mode == o.mode
+                && self.last_use == o.last_use
+                && self.intervals == o.intervals
+                && (skip_expired || self.expired == o.expired)
+                && self.reserved == o.reserved
+                && self.exch_len == o.exch_len;
+            for k in 0..MAX_EXCHANGES {
+                if Some(k) != skip_exch {
+                    eq &= self.exch[k] == o.exch[k];
+                }
+            }
+            eq
+        }
+    }
+
+    pub(super) fn mode_sig(mode: &SessionMode) -> (u8, u8, u16, u32, u32, u32) {
+        match mode {
+            SessionMode::Case { fab_idx, cat_ids } => {
+                (0, fab_idx.get(), 0, cat_ids[0], cat_ids[1], cat_ids[2])
+            }
+            SessionMode::Pase { fab_idx } => (1, *fab_idx, 0, 0, 0, 0),
+            SessionMode::Group { fab_idx, group_id } => (2, fab_idx.get(), *group_id, 0, 0, 0),
+            SessionMode::PlainText => (3, 0, 0, 0, 0, 0),
+        }
+    }
+
+    pub(super) fn addr_sig(a: &Address) -> (u8, u32, u16, u64) {
+        let v4 = |sa: &SocketAddr| match sa {
+            SocketAddr::V4(v) => (v.ip().to_bits(), v.port()),
+            SocketAddr::V6(v) => (0, v.port()),
+        };
+        match a {
+            Address::Udp(sa) => (0, v4(sa).0, v4(sa).1, 0),
+            Address::Tcp(sa) => (1, v4(sa).0, v4(sa).1, 0),
+            Address::Btp(BtAddr(b)) => (
+                2,
+                0,
+                0,
+                (b[0] as u64)
+                    | (b[1] as u64) << 8
+                    | (b[2] as u64) << 16
+                    | (b[3] as u64) << 24
+                    | (b[4] as u64) << 32
+                    | (b[5] as u64) << 40,
+            ),
+        }
+    }
+
+    pub(super) fn sess_sig(s: &Session) -> SessSig {
+        let mut exch = [ExchSig::EMPTY; MAX_EXCHANGES];
+        let len = s.exchanges.len();
+        for k in 0..MAX_EXCHANGES {
+            if k < len {
+                exch[k] = exch_sig(&s.exchanges[k]);
+            }
+        }
+        SessSig {
+            id: s.id,
+            peer_addr: addr_sig(&s.peer_addr),
+            local_nodeid: s.local_nodeid,
+            peer_nodeid: s.peer_nodeid,
+            local_sess_id: s.local_sess_id,
+            peer_sess_id: s.peer_sess_id,
+            msg_ctr: s.msg_ctr,
+            mode: mode_sig(&s.mode),
+            last_use: s.last_use.as_ticks(),
+            intervals: (
+                s.peer_active_interval_ms,
+                s.peer_idle_interval_ms,
+                s.peer_active_threshold_ms,
+            ),
+            expired: s.expired,
+            reserved: s.reserved,
+            exch_len: len,
+            exch,
+        }
+    }
+
+    /// Observation of the whole table: `(len, per-slot signature)`; `N` = the table bound of the harness.
+    pub(super) fn table_sig<const N: usize>(t: &Sessions) -> (usize, [SessSig; N]) {
+        let mut a = [SessSig::EMPTY; N];
+        let len = t.sessions.len();
+        for k in 0..N {
+            if k < len {
+                a[k] = sess_sig(&t.sessions[k]);
+            }
+        }
+        (len, a)
+    }
+
+    pub(super) fn counters_sig(t: &Sessions) -> (u32, u16, u16) {
+        (t.next_sess_unique_id, t.next_sess_id, t.next_exch_id)
+    }
+
+    // ------------------------------------------------------------------------------------------------
+    // Session::get_msg_ctr
+    // ------------------------------------------------------------------------------------------------
+
+    // TIER: quick
+    // KIND: complete
+    #[kani::proof]
+    #[kani::unwind(7)]
+    fn c15_get_msg_ctr_fresh_and_increasing() {
+        let mut s = any_session(false);
+        // Arithmetic horizon: fewer than 2^32 - 1 counters handed out so far (see c15_d2b_*).
+        kani::assume(s.msg_ctr < u32::MAX);
+        // ghost: any counter handed out earlier on this session lies below `msg_ctr`
+        let earlier: u32 = kani::any();
+        kani::assume(earlier < s.msg_ctr);
+
+        let before = sess_sig(&s);
+        let r = s.get_msg_ctr();
+        kani::assert(r.is_ok(), "C15.get_msg_ctr.ok_before_exhaustion");
+        let c = match r {
+            Ok(c) => c,
+            Err(_) => return,
+        };
+        let after = sess_sig(&s);
+
+        kani::assert(c == before.msg_ctr, "C15.get_msg_ctr.returns_current_counter");
+        kani::assert(c > earlier, "C15.get_msg_ctr.greater_than_all_earlier");
+        kani::assert(after.msg_ctr == before.msg_ctr + 1, "C15.get_msg_ctr.increments_by_one");
+        kani::assert(c < after.msg_ctr, "C15.get_msg_ctr.handed_out_value_now_below_counter");
+        kani::assert(
+            after.same_except(&before, None, true, false),
+            "C15.get_msg_ctr.frame",
+        );
+
+        kani::cover!(before.msg_ctr == 1, "counter at one");
+        kani::cover!(before.msg_ctr == u32::MAX - 1, "last value before the horizon");
+    }
+
+    /// D2b: with NO horizon assumption the counter must still never hand out a value twice.
+    /// Fails today: `msg_ctr += 1` overflows at u32::MAX (panic in debug, wrap to 0 = reuse in release).
+    // TIER: quick
+    // KIND: complete
+    #[kani::proof]
+    #[kani::unwind(7)]
+    fn c15_d2b_get_msg_ctr_counter_exhaustion() {
+        let mut s = any_session(false);
+        let old = s.msg_ctr;
+        kani::cover!(old == u32::MAX, "exhausted counter");
+        // (fixed in /repo 38aa72d: the exhausted counter space is reported as an error)
+        match s.get_msg_ctr() {
+            Ok(c) => {
+                kani::assert(c == old, "C15.d2b.returns_current_counter");
+                kani::assert(s.msg_ctr > old, "C15.d2b.counter_strictly_increases_in_every_state");
+            }
+            Err(_) => {
+                // nothing is handed out, and nothing ever will be again on this session
+                kani::assert(old == u32::MAX, "C15.d2b.refuses_only_when_exhausted");
+                kani::assert(s.msg_ctr == old, "C15.d2b.exhausted_counter_stays_exhausted");
+            }
+        }
+    }
+
+    // ------------------------------------------------------------------------------------------------
+    // Session::pre_send
+    // ------------------------------------------------------------------------------------------------
+
+    pub(super) fn any_packet_hdr() -> PacketHdr {
+        let mut h = PacketHdr::new();
+        h.plain.sess_id = kani::any();
+        h.plain.ctr = kani::any();
+        h.plain.sec_flags = SecFlags::from_bits_retain(kani::any());
+        h.plain.set_src_nodeid(kani::any());
+        if kani::any() {
+            h.plain.set_dst_unicast_nodeid(kani::any());
+        } else {
+            h.plain.set_dst_groupcast_nodeid(kani::any());
+        }
+        h.proto.exch_id = kani::any();
+        h.proto.proto_id = kani::any();
+        h.proto.proto_opcode = kani::any();
+        if kani::any() {
+            h.proto.set_reliable();
+        }
+        if kani::any() {
+            h.proto.set_initiator();
+        }
+        h.proto.set_ack(kani::any());
+        h.proto.set_vendor(kani::any());
+        h
+    }
+
+    /// Step contract of `Session::pre_send`, for every session, every exchange slot and every header.
+    ///
+    /// Representation invariant assumed (and shown preserved): a counter remembered for
+    /// retransmission was handed out earlier, i.e. lies below `msg_ctr`.
+    // TIER: thorough
+    // KIND: complete
+    #[kani::proof]
+    #[kani::unwind(8)]
+    fn c15_pre_send_counter_discipline() {
+        let mut s = any_session(false);
+        let len = s.exchanges.len();
+        // Precondition from the call sites: the exchange index designates a live exchange.
+        let exch_index: Option<usize> = kani::any();
+        if let Some(i) = exch_index {
+            kani::assume(i < len && s.exchanges[i].is_some());
+            // the addressed exchange has an arbitrary pending retransmission with an arbitrary
+            // number (0..=5) of transmissions so far (the other exchanges' counts are not read)
+            s.exchanges[i].as_mut().unwrap().mrp.retrans = any_retrans(true);
+        }
+        for k in 0..MAX_EXCHANGES {
+            if k < len {
+                if let Some(r) = s.exchanges[k].as_ref().and_then(|e| e.mrp.retrans.as_ref()) {
+                    kani::assume(r.get_msg_ctr() < s.msg_ctr);
+                }
+            }
+        }
+        // Arithmetic horizon, see c15_d2b_*.
+        kani::assume(s.msg_ctr < u32::MAX);
+        let mut tx = any_packet_hdr();
+
+        // ghost: any counter stamped on an earlier message of this session
+        let earlier: u32 = kani::any();
+        kani::assume(earlier < s.msg_ctr);
+
+        let before = sess_sig(&s);
+        let stored = exch_index.and_then(|i| before.exch[i].retrans);
+        let reserved_group_ctr = exch_index.and_then(|i| before.exch[i].group_data_ctr);
+        let pending_ack = exch_index.and_then(|i| before.exch[i].ack);
+        let is_group = matches!(s.mode, SessionMode::Group { .. });
+        let is_group_data = is_group && !MessageMeta::from(&tx.proto).is_control_msg();
+        let old_hdr_ctr = tx.plain.ctr;
+
+        let r = s.pre_send(exch_index, &mut tx, kani::any(), kani::any());
+
+        let after = sess_sig(&s);
+        let stamped = tx.plain.ctr;
+        let tx_timeout = matches!(r.as_ref().map_err(Error::code), Err(ErrorCode::TxTimeout));
+
+        if let Some(c) = stored {
+            // ---- retransmission
+            kani::assert(stamped == c, "C15.pre_send.retrans_stamps_stored_counter");
+            kani::assert(after.msg_ctr == before.msg_ctr, "C15.pre_send.retrans_keeps_msg_ctr");
+            kani::assert(
+                r.is_ok() || tx_timeout,
+                "C15.pre_send.retrans_fails_only_by_giving_up",
+            );
+            if let Ok((_, flag)) = r.as_ref() {
+                kani::assert(*flag, "C15.pre_send.retrans_reported_as_retransmission");
+            }
+            let i = exch_index.unwrap();
+            // the remembered counter never changes while the entry lives
+            kani::assert(
+                after.exch[i].retrans == Some(c) || (tx_timeout && after.exch[i].retrans.is_none()),
+                "C15.pre_send.retrans_entry_keeps_its_counter",
+            );
+        } else if is_group_data {
+            // ---- group data message: the value reserved for this exchange (property C12), never msg_ctr
+            kani::assert(after.msg_ctr == before.msg_ctr, "C15.pre_send.group_data_keeps_msg_ctr");
+            match reserved_group_ctr {
+                Some(g) => {
+                    kani::assert(r.is_ok(), "C15.pre_send.group_data_with_reservation_succeeds");
+                    kani::assert(stamped == g, "C15.pre_send.group_data_stamps_reserved_counter");
+                }
+                None => {
+                    kani::assert(r.is_err(), "C15.pre_send.group_data_without_reservation_refused");
+                    kani::assert(stamped == old_hdr_ctr, "C15.pre_send.group_data_refusal_stamps_nothing");
+                }
+            }
+        } else {
+            // ---- fresh message
+            kani::assert(r.is_ok(), "C15.pre_send.fresh_never_fails");
+            kani::assert(stamped == before.msg_ctr, "C15.pre_send.fresh_stamps_old_msg_ctr");
+            kani::assert(after.msg_ctr == before.msg_ctr + 1, "C15.pre_send.fresh_increments_msg_ctr");
+            kani::assert(stamped > earlier, "C15.pre_send.fresh_greater_than_all_earlier");
+            kani::assert(stamped < after.msg_ctr, "C15.pre_send.fresh_below_new_msg_ctr");
+            if let Ok((_, flag)) = r.as_ref() {
+                kani::assert(!*flag, "C15.pre_send.fresh_not_reported_as_retransmission");
+            }
+            if let Some(i) = exch_index {
+                // a reliable fresh message is remembered with exactly the stamped counter, so that
+                // its retransmissions (case above) carry the same one
+                kani::assert(
+                    after.exch[i].retrans.is_none() || after.exch[i].retrans == Some(stamped),
+                    "C15.pre_send.fresh_remembers_only_stamped_counter",
+                );
+                kani::assert(
+                    !tx.proto.is_reliable() || after.exch[i].retrans == Some(stamped),
+                    "C15.pre_send.fresh_reliable_is_remembered",
+                );
+            }
+        }
+
+        // Header identity of a retransmission also needs the same piggy-backed acknowledgement:
+        // a pending ack is always stamped with the AckEntry's counter, and the entry keeps it.
+        if let (Some(i), Some((a, _))) = (exch_index, pending_ack) {
+            if r.is_ok() {
+                kani::assert(tx.proto.get_ack() == Some(a), "C15.pre_send.ack_is_pending_ack_counter");
+                kani::assert(after.exch[i].ack == Some((a, true)), "C15.pre_send.ack_entry_keeps_its_counter");
+            }
+        }
+
+        // key / source identity of the nonce are not touched
+        kani::assert(tx.plain.sess_id == before.peer_sess_id, "C15.pre_send.addressed_to_peer_session_id");
+
+        // invariant preserved: every remembered counter stays below msg_ctr
+        let j: usize = kani::any();
+        kani::assume(j < MAX_EXCHANGES);
+        if let Some(c) = after.exch[j].retrans {
+            kani::assert(c < after.msg_ctr, "C15.pre_send.remembered_counters_stay_below_msg_ctr");
+        }
+        kani::assert(earlier < after.msg_ctr, "C15.pre_send.earlier_counters_stay_below_msg_ctr");
+
+        // frame: nothing but msg_ctr, the addressed exchange and (on a give-up) `expired` changes
+        kani::assert(
+            after.same_except(&before, exch_index, true, true),
+            "C15.pre_send.frame",
+        );
+        kani::assert(
+            after.expired == before.expired || (after.expired && tx_timeout),
+            "C15.pre_send.expired_only_set_on_give_up",
+        );
+
+        kani::cover!(stored.is_some() && r.is_ok(), "retransmission");
+        kani::cover!(stored.is_some() && tx_timeout, "retransmission gives up");
+        kani::cover!(stored.is_none() && !is_group_data && exch_index.is_some() && tx.proto.is_reliable(), "fresh reliable message");
+        kani::cover!(stored.is_none() && !is_group_data && exch_index.is_none(), "fresh message without exchange");
+        kani::cover!(stored.is_none() && is_group_data && r.is_ok(), "group data message");
+        kani::cover!(stored.is_none() && is_group_data && r.is_err(), "group data without reservation");
+        kani::cover!(is_group && !is_group_data && stored.is_none(), "group control message");
+        kani::cover!(pending_ack.is_some() && r.is_ok(), "piggy-backed ack");
+    }
+
+    // ------------------------------------------------------------------------------------------------
+    // Sessions::get_next_sess_id
+    // ------------------------------------------------------------------------------------------------
+
+    fn check_next_sess_id<const N: usize>() {
+        let mut t = Sessions::new();
+        fill_sessions(&mut t, N);
+        // Representation invariant: the allocator never rests on 0 (`new`/`reset` set 1, the step skips 0).
+        kani::assume(t.next_sess_id != 0);
+
+        let (len, before) = table_sig::<N>(&t);
+        let ctrs = counters_sig(&t);
+
+        // terminates within len + 1 candidates: unwinding assertion of the `loop` (unwind = N + 3)
+        let id = t.get_next_sess_id();
+
+        let (len_after, after) = table_sig::<N>(&t);
+        kani::assert(id != 0, "C15.next_sess_id.non_zero");
+        let j: usize = kani::any();
+        kani::assume(j < len);
+        kani::assert(
+            before[j].local_sess_id != id,
+            "C15.next_sess_id.differs_from_every_live_session",
+        );
+        kani::assert(t.next_sess_id != 0, "C15.next_sess_id.allocator_stays_non_zero");
+        kani::assert(
+            len_after == len && after[j] == before[j],
+            "C15.next_sess_id.frame_sessions",
+        );
+        kani::assert(
+            t.next_sess_unique_id == ctrs.0 && t.next_exch_id == ctrs.2,
+            "C15.next_sess_id.frame_other_allocators",
+        );
+
+        kani::cover!(id != ctrs.1, "first candidate taken by a live session");
+        kani::cover!(ctrs.1 == u16::MAX && id == 1, "wraps past 0");
+    }
+
+    // TIER: thorough
+    // KIND: bounded (table of exactly 3 of MAX_SESSIONS=32 sessions)
+    #[kani::proof]
+    #[kani::unwind(7)]
+    fn c15_next_sess_id_unique_3() {
+        check_next_sess_id::<3>();
+    }
+
+    // ------------------------------------------------------------------------------------------------
+    // Sessions::get_next_exch_id
+    // ------------------------------------------------------------------------------------------------
+
+    /// What holds today: non-zero, seeded exactly when unseeded, frame, termination
+    /// (within #live exchanges + 1 candidates: unwinding assertion, unwind = 5 N + 3).
+    fn check_next_exch_id<const N: usize>() {
+        let mut t = Sessions::new();
+        fill_sessions(&mut t, N);
+        let crypto = RandOnlyCrypto { fail: kani::any() };
+
+        let (len, before) = table_sig::<N>(&t);
+        let ctrs = counters_sig(&t);
+
+        let r = t.get_next_exch_id(crypto);
+
+        let (len_after, after) = table_sig::<N>(&t);
+        match r.as_ref() {
+            Ok(id) => {
+                let id = *id;
+                kani::assert(id != 0, "C15.next_exch_id.non_zero");
+                kani::assert(t.next_exch_id != 0, "C15.next_exch_id.allocator_seeded_and_non_zero");
+                // an id chosen by the peer for an exchange we respond on is never handed out
+                let j: usize = kani::any();
+                let k: usize = kani::any();
+                kani::assume(j < len && k < MAX_EXCHANGES);
+                let e = before[j].exch[k];
+                kani::assert(
+                    !(e.live && e.role >= 2) || e.exch_id != id,
+                    "C15.next_exch_id.differs_from_live_responder_exchanges",
+                );
+            }
+            Err(_) => {
+                // only the RNG can fail, and only when a seed is needed; nothing changes then
+                kani::assert(crypto.fail && ctrs.2 == 0, "C15.next_exch_id.fails_only_without_seed_entropy");
+                kani::assert(t.next_exch_id == 0, "C15.next_exch_id.failure_changes_nothing");
+            }
+        }
+        kani::assert(ctrs.2 == 0 || r.is_ok(), "C15.next_exch_id.seeded_allocator_never_fails");
+        let j: usize = kani::any();
+        kani::assume(j < len);
+        kani::assert(
+            len_after == len && after[j] == before[j],
+            "C15.next_exch_id.frame_sessions",
+        );
+        kani::assert(
+            t.next_sess_unique_id == ctrs.0 && t.next_sess_id == ctrs.1,
+            "C15.next_exch_id.frame_other_allocators",
+        );
+
+        kani::cover!(ctrs.2 == 0 && r.is_ok(), "lazy seeding");
+        kani::cover!(r.is_err(), "seeding fails");
+        kani::cover!(ctrs.2 == u16::MAX && r.is_ok(), "wraps past 0");
+        kani::cover!(matches!(r, Ok(id) if ctrs.2 != 0 && id != ctrs.2), "first candidate skipped");
+    }
+
+    // TIER: thorough
+    // KIND: bounded (table of exactly 2 of MAX_SESSIONS=32 sessions, each with all 5 exchange slots)
+    #[kani::proof]
+    #[kani::unwind(13)]
+    fn c15_next_exch_id_2() {
+        check_next_exch_id::<2>();
+    }
+
+    // TIER: thorough
+    // KIND: bounded (table of exactly 1 of MAX_SESSIONS=32 sessions, with all 5 exchange slots)
+    #[kani::proof]
+    #[kani::unwind(8)]
+    fn c15_next_exch_id_1() {
+        check_next_exch_id::<1>();
+    }
+
+    /// D2 - the obligation of the statement: the id differs from the id of every live exchange
+    /// this node initiated (ids of responder exchanges are chosen by the peer and live in the
+    /// peer's number space; `ExchangeState::is_for_rx` tells them apart by the initiator flag).
+    /// Refuted on the tree before /repo commit 5a32bff (the scan at session.rs:1796-1798 looked at
+    /// responder exchanges only; counterexample: next_exch_id = 1 with a live Initiator exchange 1);
+    /// holds since the repair (the scan compares with every live exchange).
+    // TIER: quick
+    // KIND: bounded (table of exactly 1 of MAX_SESSIONS=32 sessions, with all 5 exchange slots)
+    #[kani::proof]
+    #[kani::unwind(8)]
+    fn c15_d2_next_exch_id_unique_among_live_initiated() {
+        let mut t = Sessions::new();
+        fill_sessions(&mut t, 1);
+        let crypto = RandOnlyCrypto { fail: false };
+        let (len, before) = table_sig::<1>(&t);
+
+        let r = t.get_next_exch_id(crypto);
+
+        if let Ok(id) = r {
+            let j: usize = kani::any();
+            let k: usize = kani::any();
+            kani::assume(j < len && k < MAX_EXCHANGES);
+            let e = before[j].exch[k];
+            kani::cover!(e.live && e.role < 2, "a live initiator exchange exists");
+            kani::assert(
+                !(e.live && e.role < 2) || e.exch_id != id,
+                "C15.d2.exch_id_differs_from_live_initiator_exchanges",
+            );
+        }
+    }
+
+    // ------------------------------------------------------------------------------------------------
+    // Sessions::add - allocation of the internal unique session id
+    // ------------------------------------------------------------------------------------------------
+
+    /// While the 28-bit id allocator has not wrapped (ghost invariant: every live id is below
+    /// `next_sess_unique_id`), `add` hands out an id no live session has, and keeps the invariant.
+    // TIER: thorough
+    // KIND: bounded (table of exactly 3 of MAX_SESSIONS=32 sessions)
+    #[kani::proof]
+    #[kani::unwind(7)]
+    #[kani::stub(embassy_time::Instant::now, fake_now)]
+    fn c15_add_unique_id_before_wrap() {
+        set_now(kani::any());
+        let mut t = Sessions::new();
+        fill_sessions(&mut t, 3);
+        let (len, before) = table_sig::<3>(&t);
+        for k in 0..3 {
+            kani::assume(before[k].id < t.next_sess_unique_id);
+        }
+        // horizon: this is not the allocation that wraps (see c15_d10_*)
+        kani::assume(t.next_sess_unique_id < MATTER_MSG_CTR_RANGE);
+        let next = t.next_sess_unique_id;
+
+        let dev_det = &crate::dm::devices::test::TEST_DEV_DET;
+        let r = t.add(kani::any(), kani::any(), any_addr(), kani::any(), dev_det).map(|s| s.id);
+
+        kani::assert(r.is_ok(), "C15.add.succeeds_below_capacity");
+        if let Ok(id) = r {
+            kani::assert(id == next, "C15.add.id_is_next_unique_id");
+            let j: usize = kani::any();
+            kani::assume(j < len);
+            kani::assert(before[j].id != id, "C15.add.id_differs_from_every_live_session");
+            kani::assert(id <= MATTER_MSG_CTR_RANGE, "C15.add.id_fits_28_bits");
+        }
+        kani::assert(t.next_sess_unique_id == next + 1, "C15.add.allocator_advances");
+        let (len_after, after) = table_sig::<4>(&t);
+        let j: usize = kani::any();
+        kani::assume(j < len_after);
+        kani::assert(
+            after[j].id < t.next_sess_unique_id,
+            "C15.add.live_ids_stay_below_allocator",
+        );
+        kani::cover!(next == 3, "ids 0..3 in use");
+    }
+
+    /// D10: the same obligation with only the weak invariant (`next_sess_unique_id` in 28 bits).
+    /// Fails today: after the allocator wrapped, `add` hands out an id a live session still has.
+    // TIER: thorough
+    // KIND: bounded (table of exactly 3 of MAX_SESSIONS=32 sessions)
+    #[kani::proof]
+    #[kani::unwind(7)]
+    #[kani::stub(embassy_time::Instant::now, fake_now)]
+    fn c15_d10_add_unique_id_after_wrap() {
+        set_now(kani::any());
+        let mut t = Sessions::new();
+        fill_sessions(&mut t, 3);
+        kani::assume(t.next_sess_unique_id <= MATTER_MSG_CTR_RANGE);
+        let (len, before) = table_sig::<3>(&t);
+
+        let dev_det = &crate::dm::devices::test::TEST_DEV_DET;
+        let r = t.add(kani::any(), kani::any(), any_addr(), kani::any(), dev_det).map(|s| s.id);
+
+        kani::assert(
+            t.next_sess_unique_id <= MATTER_MSG_CTR_RANGE,
+            "C15.d10.allocator_stays_in_28_bits",
+        );
+        if let Ok(id) = r {
+            let j: usize = kani::any();
+            kani::assume(j < len);
+            kani::assert(before[j].id != id, "C15.d10.id_differs_from_every_live_session");
+        }
+    }
+}
+
+mod c20 {
+    use super::c15::{
+        addr_sig, any_addr, any_role, any_session, counters_sig, fill_sessions, role_code, sess_sig,
+        set_now, table_sig, ExchSig, SessSig,
+    };
+    use super::*;
+
+    fn fake_now() -> Instant {
+        super::c15::fake_now()
+    }
+
+    /// The statement's notion of a session that may be evicted: idle (carries no live exchange)
+    /// and not a reservation of a handshake in progress.
+    fn evictable(s: &SessSig) -> bool {
+        !s.reserved && !s.has_exchange()
+    }
+
+    /// Representation invariant (C15): internal ids of live sessions are pairwise distinct.
+    fn assume_distinct_ids<const N: usize>(sig: &[SessSig; N]) {
+        for a in 0..N {
+            for b in 0..N {
+                if a < b {
+                    kani::assume(sig[a].id != sig[b].id);
+                }
+            }
+        }
+    }
+
+    // ------------------------------------------------------------------------------------------------
+    // Sessions::get_session_for_eviction
+    // ------------------------------------------------------------------------------------------------
+
+    /// Arbitrary table of exactly `N` sessions at time `now`; returns (table, len, signatures).
+    /// Representation invariant: the clock is monotonic, so no session was used in the future.
+    fn eviction_pick<const N: usize>(t: &mut Sessions, now: u64) -> (usize, [SessSig; N], Option<usize>, bool) {
+        fill_sessions(t, N);
+        let (len, before) = table_sig::<N>(t);
+        for k in 0..N {
+            kani::assume(before[k].last_use <= now);
+        }
+        // The picked slot is identified by address (reading the whole session through the returned
+        // reference, i.e. at a symbolic offset into the table, is needlessly dear).
+        let p = t.get_session_for_eviction().map(|s| s as *const Session);
+        let mut picked: Option<usize> = None;
+        for k in 0..N {
+            if p == Some(&t.sessions[k] as *const Session) {
+                picked = Some(k);
+            }
+        }
+        (len, before, picked, p.is_some())
+    }
+
+    fn check_eviction<const N: usize>() {
+        let now: u64 = kani::any();
+        set_now(now);
+        let mut t = Sessions::new();
+        let (len, before, picked, some) = eviction_pick::<N>(&mut t, now);
+        let ctrs = counters_sig(&t);
+
+        // witness: any session of the table
+        let j: usize = kani::any();
+        kani::assume(j < len);
+        let w = before[j];
+
+        kani::assert(some == picked.is_some(), "C20.evict.returns_a_table_entry");
+        if let Some(i) = picked {
+            let s = before[i];
+            kani::assert(!s.reserved, "C20.evict.never_a_reserved_session");
+            kani::assert(!s.has_exchange(), "C20.evict.never_a_session_with_a_live_exchange");
+            kani::assert(
+                !(evictable(&w) && w.expired) || s.expired,
+                "C20.evict.prefers_expired",
+            );
+            kani::assert(
+                s.expired || !evictable(&w) || s.last_use <= w.last_use,
+                "C20.evict.otherwise_least_recently_used",
+            );
+        }
+        // returns one whenever an evictable session exists (that was last used before `now`,
+        // or is expired - for a session used at `now` exactly see c20_d8_*)
+        kani::assert(
+            !(evictable(&w) && (w.expired || w.last_use < now)) || picked.is_some(),
+            "C20.evict.some_whenever_an_idle_session_exists",
+        );
+        // choosing changes nothing
+        let (len_after, after) = table_sig::<N>(&t);
+        kani::assert(len_after == len && after[j] == w, "C20.evict.frame_sessions");
+        kani::assert(
+            t.next_sess_unique_id == ctrs.0 && t.next_sess_id == ctrs.1 && t.next_exch_id == ctrs.2,
+            "C20.evict.frame_allocators",
+        );
+
+        kani::cover!(matches!(picked, Some(i) if before[i].expired), "expired session picked");
+        kani::cover!(matches!(picked, Some(i) if !before[i].expired && i == N - 1), "lru session picked (last slot)");
+        kani::cover!(picked.is_none(), "nothing evictable");
+        kani::cover!(w.has_exchange() && !w.reserved && picked.is_some(), "busy session left alone");
+    }
+
+    // TIER: thorough
+    // KIND: bounded (table of exactly 3 of MAX_SESSIONS=32 sessions, each with all 5 exchange slots)
+    #[kani::proof]
+    #[kani::unwind(7)]
+    #[kani::stub(embassy_time::Instant::now, fake_now)]
+    fn c20_eviction_3() {
+        check_eviction::<3>();
+    }
+
+    /// D8: the statement's clause "as soon as at least one session is idle ..." without the
+    /// `last_use < now` restriction. Fails today: an idle session last used at the current tick is skipped.
+    // TIER: thorough
+    // KIND: bounded (table of exactly 3 of MAX_SESSIONS=32 sessions, each with all 5 exchange slots)
+    #[kani::proof]
+    #[kani::unwind(7)]
+    #[kani::stub(embassy_time::Instant::now, fake_now)]
+    fn c20_d8_eviction_idle_session_used_now() {
+        let now: u64 = kani::any();
+        set_now(now);
+        let mut t = Sessions::new();
+        let (len, before, picked, _) = eviction_pick::<3>(&mut t, now);
+        let j: usize = kani::any();
+        kani::assume(j < len);
+        let w = before[j];
+        kani::cover!(evictable(&w) && w.last_use == now, "idle session used at this very tick");
+        kani::assert(
+            !evictable(&w) || picked.is_some(),
+            "C20.d8.some_whenever_an_idle_session_exists_even_if_used_now",
+        );
+    }
+
+    // ------------------------------------------------------------------------------------------------
+    // Sessions::add
+    // ------------------------------------------------------------------------------------------------
+
+    // TIER: thorough
+    // KIND: bounded (table of exactly 3 of MAX_SESSIONS=32 sessions; the full-table branch did not close, see report)
+    #[kani::proof]
+    #[kani::unwind(7)]
+    #[kani::stub(embassy_time::Instant::now, fake_now)]
+    fn c20_add_3() {
+        const N: usize = 3;
+        set_now(kani::any());
+        let mut t = Sessions::new();
+        fill_sessions(&mut t, N);
+        kani::assume(t.next_sess_unique_id <= 0x0fff_ffff);
+        let (len, before) = table_sig::<N>(&t);
+        let ctrs = counters_sig(&t);
+
+        let msg_ctr: u32 = kani::any();
+        let reserved: bool = kani::any();
+        let addr = any_addr();
+        let peer: Option<u64> = kani::any();
+        let dev_det = &crate::dm::devices::test::TEST_DEV_DET;
+
+        let r = t.add(msg_ctr, reserved, addr, peer, dev_det).map(|s| sess_sig(s));
+
+        let (len_after, after) = table_sig::<{ N + 1 }>(&t);
+        let j: usize = kani::any();
+        kani::assume(j < len);
+
+        kani::assert(r.is_ok(), "C20.add.succeeds_when_not_full");
+        if let Ok(s) = r.as_ref() {
+            kani::assert(len_after == len + 1, "C20.add.occupies_one_slot");
+            kani::assert(
+                s.reserved == reserved && !s.expired && !s.has_exchange() && s.exch_len == 0,
+                "C20.add.new_slot_is_fresh",
+            );
+            kani::assert(
+                s.peer_addr == addr_sig(&addr) && s.peer_nodeid == peer,
+                "C20.add.new_slot_has_given_peer",
+            );
+            kani::assert(s.id == ctrs.0, "C20.add.new_slot_id");
+            // C15: the send counter starts inside 28 bits
+            kani::assert(s.msg_ctr == msg_ctr & 0x0fff_ffff, "C20.add.new_slot_send_counter_in_28_bits");
+            kani::assert(after[N] == *s, "C20.add.new_slot_is_last");
+        }
+        kani::assert(after[j] == before[j], "C20.add.frame_other_sessions");
+        kani::assert(t.next_sess_id == ctrs.1 && t.next_exch_id == ctrs.2, "C20.add.frame_other_allocators");
+        kani::cover!(r.is_ok() && reserved, "reservation added");
+    }
+
+    // ------------------------------------------------------------------------------------------------
+    // Callee contract: `Vec::swap_remove`
+    //
+    // `Sessions::{remove, remove_pase}` and `ReservedSession::drop` go through `Vec::swap_remove`, whose
+    // `ptr::copy` (memmove) of a 520-byte element inside the 16 KB session buffer exhausts 12 GB of CBMC
+    // memory even on a one-session table (measured). Per the harness guide, rule 9, these callers are
+    // verified against the callee's CONTRACT: `swap_remove_model` below states it executably (returns the
+    // element at `index`, the last element takes its place, the length drops by one, nothing else
+    // moves), and `c20_vec_swap_remove_model_is_exact` proves the real `swap_remove` equal to it.
+    // ------------------------------------------------------------------------------------------------
+
+    fn swap_remove_model<T, const N: usize>(v: &mut Vec<T, N>, index: usize) -> T {
+        kani::assert(index < v.len(), "C20.vec_swap_remove.called_with_index_in_bounds");
+        let last = match v.pop() {
+            Some(last) => last,
+            None => unreachable!(),
+        };
+        if index == v.len() {
+            last
+        } else {
+            core::mem::replace(&mut v[index], last)
+        }
+    }
+
+    // TIER: quick
+    // KIND: bounded (element type u64, capacity 4; `Vec<T, N>::swap_remove` is one generic body for every T and N)
+    #[kani::proof]
+    #[kani::unwind(6)]
+    fn c20_vec_swap_remove_model_is_exact() {
+        let mut a: Vec<u64, 4> = Vec::new();
+        let mut b: Vec<u64, 4> = Vec::new();
+        let n: usize = kani::any();
+        kani::assume(n <= 4);
+        for k in 0..4 {
+            if k < n {
+                let x: u64 = kani::any();
+                let _ = a.push(x);
+                let _ = b.push(x);
+            }
+        }
+        let i: usize = kani::any();
+        kani::assume(i < n);
+
+        let ra = a.swap_remove(i);
+        let rb = swap_remove_model(&mut b, i);
+
+        kani::assert(ra == rb, "C20.vec_swap_remove.model_returns_the_same_element");
+        kani::assert(a.len() == b.len() && a.len() == n - 1, "C20.vec_swap_remove.model_leaves_the_same_length");
+        let j: usize = kani::any();
+        kani::assume(j < a.len());
+        kani::assert(a[j] == b[j], "C20.vec_swap_remove.model_leaves_the_same_elements");
+        kani::cover!(i + 1 == n && n == 4, "removes the last of a full vector");
+        kani::cover!(i == 0 && n == 4, "removes the first of a full vector");
+    }
+
+    // ------------------------------------------------------------------------------------------------
+    // Sessions::remove
+    // ------------------------------------------------------------------------------------------------
+
+    fn check_remove<const N: usize>() {
+        let mut t = Sessions::new();
+        fill_sessions(&mut t, N);
+        let (len, before) = table_sig::<N>(&t);
+        let ctrs = counters_sig(&t);
+        let id: u32 = kani::any();
+
+        // the statement's view: the first slot holding that id, if any
+        let mut first: Option<usize> = None;
+        for k in 0..N {
+            if first.is_none() && before[k].id == id {
+                first = Some(k);
+            }
+        }
+
+        let r = t.remove(id).map(|s| sess_sig(&s));
+
+        let (len_after, after) = table_sig::<N>(&t);
+        let j: usize = kani::any();
+        kani::assume(j < len);
+        match first {
+            Some(i) => {
+                kani::assert(r == Some(before[i]), "C20.remove.returns_the_session_with_that_id");
+                kani::assert(len_after == len - 1, "C20.remove.frees_exactly_one_slot");
+                // every other session survives: slot i is refilled from the last slot, the rest stay
+                kani::assert(
+                    if j == i {
+                        i == len - 1 || after[i] == before[len - 1]
+                    } else {
+                        j >= len - 1 || after[j] == before[j]
+                    },
+                    "C20.remove.every_other_session_survives",
+                );
+            }
+            None => {
+                kani::assert(r.is_none(), "C20.remove.unknown_id_returns_none");
+                kani::assert(len_after == len && after[j] == before[j], "C20.remove.unknown_id_changes_nothing");
+            }
+        }
+        kani::assert(counters_sig(&t) == ctrs, "C20.remove.frame_allocators");
+
+        kani::cover!(first == Some(0), "removes the first");
+        kani::cover!(first == Some(N - 1), "removes the last");
+        kani::cover!(first.is_none(), "unknown id");
+    }
+
+    // TIER: thorough
+    // KIND: bounded (table of exactly 1 of MAX_SESSIONS=32 sessions)
+    #[kani::proof]
+    #[kani::unwind(7)]
+    #[kani::stub(crate::utils::storage::Vec::swap_remove, swap_remove_model)]
+    fn c20_remove_1() {
+        check_remove::<1>();
+    }
+
+    // ------------------------------------------------------------------------------------------------
+    // Sessions::remove_pase
+    // ------------------------------------------------------------------------------------------------
+
+    fn check_remove_pase<const N: usize>() {
+        let mut t = Sessions::new();
+        fill_sessions(&mut t, N);
+        let (len, before) = table_sig::<N>(&t);
+        let ctrs = counters_sig(&t);
+        assume_distinct_ids(&before);
+        let keep: Option<u32> = kani::any();
+
+        let is_pase = |s: &SessSig| s.mode.0 == 1;
+        let survives = |s: &SessSig| !is_pase(s) || Some(s.id) == keep;
+        let mut expected = 0usize;
+        for k in 0..N {
+            if survives(&before[k]) {
+                expected += 1;
+            }
+        }
+
+        t.remove_pase(keep);
+
+        let (len_after, after) = table_sig::<N>(&t);
+        // every PASE session is gone, except the one to keep, which is expired
+        let j: usize = kani::any();
+        if j < len_after {
+            kani::assert(survives(&after[j]), "C20.remove_pase.no_pase_session_left_but_the_kept_one");
+            kani::assert(!is_pase(&after[j]) || after[j].expired, "C20.remove_pase.kept_pase_session_is_expired");
+        }
+        // nothing else is dropped or altered
+        kani::assert(len_after == expected, "C20.remove_pase.only_pase_sessions_dropped");
+        let i: usize = kani::any();
+        kani::assume(i < len);
+        if survives(&before[i]) {
+            let mut found = false;
+            for k in 0..N {
+                if k < len_after {
+                    found |= after[k].same_except(&before[i], None, false, is_pase(&before[i]));
+                }
+            }
+            kani::assert(found, "C20.remove_pase.survivors_unchanged");
+        }
+        kani::assert(counters_sig(&t) == ctrs, "C20.remove_pase.frame_allocators");
+
+        kani::cover!(len_after == 0, "all dropped");
+        kani::cover!(len_after == 1 && after[0].mode.0 == 1, "only the kept PASE session left");
+        kani::cover!(len_after == len, "no PASE session");
+    }
+
+    // TIER: thorough
+    // KIND: bounded (table of exactly 1 of MAX_SESSIONS=32 sessions)
+    #[kani::proof]
+    #[kani::unwind(7)]
+    #[kani::stub(crate::utils::storage::Vec::swap_remove, swap_remove_model)]
+    fn c20_remove_pase_1() {
+        check_remove_pase::<1>();
+    }
+
+    // ------------------------------------------------------------------------------------------------
+    // Session::add_exch / Session::remove_exch
+    // ------------------------------------------------------------------------------------------------
+
+    // TIER: quick
+    // KIND: complete
+    #[kani::proof]
+    #[kani::unwind(8)]
+    fn c20_add_exch_uses_a_free_slot() {
+        let mut s = any_session(false);
+        // Representation invariant: internal session ids fit 28 bits (C15.add.id_fits_28_bits);
+        // `ExchangeId::new` panics otherwise.
+        kani::assume(s.id <= MATTER_MSG_CTR_RANGE);
+        let before = sess_sig(&s);
+        let exch_id: u16 = kani::any();
+        let role = any_role();
+
+        let mut live = 0usize;
+        for k in 0..MAX_EXCHANGES {
+            if before.exch[k].live {
+                live += 1;
+            }
+        }
+
+        let r = s.add_exch(exch_id, role);
+
+        let after = sess_sig(&s);
+        kani::assert(r.is_some() == (live < MAX_EXCHANGES), "C20.add_exch.fails_only_when_all_slots_live");
+        match r {
+            Some(i) => {
+                kani::assert(i < MAX_EXCHANGES && i < after.exch_len, "C20.add_exch.index_in_table");
+                kani::assert(!before.exch[i].live, "C20.add_exch.slot_was_free");
+                kani::assert(
+                    after.exch[i]
+                        == ExchSig {
+                            live: true,
+                            exch_id,
+                            role: role_code(&role),
+                            ..ExchSig::EMPTY
+                        },
+                    "C20.add_exch.slot_holds_fresh_exchange",
+                );
+                kani::assert(
+                    after.exch_len == before.exch_len || (after.exch_len == before.exch_len + 1 && i == before.exch_len),
+                    "C20.add_exch.table_grows_by_at_most_the_new_slot",
+                );
+                let mut a2 = after;
+                a2.exch_len = before.exch_len;
+                kani::assert(a2.same_except(&before, Some(i), false, false), "C20.add_exch.frame");
+            }
+            None => {
+                kani::assert(after == before, "C20.add_exch.failure_changes_nothing");
+            }
+        }
+        kani::cover!(r.is_none(), "all slots live");
+        kani::cover!(matches!(r, Some(i) if i < before.exch_len), "re-uses a freed slot");
+        kani::cover!(matches!(r, Some(i) if i == before.exch_len), "appends a slot");
+    }
+
+    // TIER: quick
+    // KIND: complete
+    #[kani::proof]
+    #[kani::unwind(8)]
+    fn c20_remove_exch_frees_or_marks_dropped() {
+        let mut s = any_session(false);
+        // Representation invariant: internal session ids fit 28 bits (C15.add.id_fits_28_bits);
+        // `ExchangeId::new` panics otherwise.
+        kani::assume(s.id <= MATTER_MSG_CTR_RANGE);
+        let before = sess_sig(&s);
+        let i: usize = kani::any();
+        // Precondition from the call sites: the index designates a live exchange.
+        kani::assume(i < before.exch_len && before.exch[i].live);
+        let old = before.exch[i];
+        let retrans_pending = old.retrans.is_some();
+        let ack_pending = matches!(old.ack, Some((_, false)));
+
+        let freed = s.remove_exch(i);
+
+        let after = sess_sig(&s);
+        kani::assert(freed == !(retrans_pending || ack_pending), "C20.remove_exch.freed_unless_retrans_or_ack_pending");
+        if freed {
+            kani::assert(!after.exch[i].live, "C20.remove_exch.slot_is_free");
+        } else {
+            let dropped = after.exch[i].role == 1 || after.exch[i].role == 4;
+            kani::assert(after.exch[i].live && dropped, "C20.remove_exch.pending_exchange_marked_dropped");
+            kani::assert((old.role < 2) == (after.exch[i].role < 2), "C20.remove_exch.dropped_keeps_direction");
+            let mut e = after.exch[i];
+            e.role = old.role;
+            kani::assert(e == old, "C20.remove_exch.dropped_keeps_id_and_pending_state");
+        }
+        kani::assert(after.same_except(&before, Some(i), false, false), "C20.remove_exch.frame");
+
+        kani::cover!(freed, "dropped cleanly");
+        kani::cover!(!freed && retrans_pending, "retransmission pending");
+        kani::cover!(!freed && !retrans_pending && ack_pending, "ack pending");
+    }
+}
